@@ -23,6 +23,8 @@ type EvalCtx struct {
 	depth           int
 	polarityUnknown bool
 	loopSnap        *State
+	closureArgs     map[string]*ssa.MakeClosure // function-valued parameters bound to closures created by the caller
+	cells           map[string]Loc              // captured variables of the closure whose contract is evaluated: name -> cell
 }
 
 func (c *EvalCtx) child() *EvalCtx {
@@ -362,6 +364,49 @@ func (c *EvalCtx) call(x *ast.CallExpr) Term {
 		}
 		body.Pat = pat.S
 		return body
+	case "returned":
+		// returned(fn, x): x satisfies what the contract of the closure bound to fn says about its result
+		id, ok := x.Args[0].(*ast.Ident)
+		if !ok {
+			c.fail("returned(fn, x)")
+		}
+		val := c.eval(x.Args[1])
+		mc := c.closureArgs[id.Name]
+		if mc == nil {
+			return tTrue
+		}
+		fn2 := mc.Fn.(*ssa.Function)
+		c2 := c.u.eng.contractFor(fn2)
+		if c2 == nil || len(c2.Results) != 1 {
+			return tTrue
+		}
+		var cs []Term
+		for _, e := range c2.Ensures {
+			func() {
+				defer func() {
+					if r := recover(); r != nil {
+						if _, ok := r.(evalErr); !ok {
+							panic(r)
+						}
+					}
+				}()
+				n := &EvalCtx{u: c.u, st: c.st, old: c.old, bound: map[string]bool{}, vars: map[string]Term{c2.Results[0]: val}}
+				n.pkg = calleePkg(fn2)
+				cs = append(cs, n.eval(e.Expr))
+			}()
+		}
+		return and(cs...)
+	case "cast":
+		// cast(x, T): the ghost reference x seen as a value of (pointer) type T
+		v := c.eval(x.Args[0])
+		t := c.u.eng.resolveType(c.pkg, x.Args[1])
+		v.T = t
+		return v
+	case "constmap":
+		// constmap(v): the ghost map that is v everywhere (string keys)
+		v := c.eval(x.Args[0])
+		as := arraySort(SStr, v.Sort)
+		return mk(fmt.Sprintf("((as const %s) %s)", as, v.S), as)
 	case "allocNow":
 		// the allocation bound of the current state: every object existing now has own() <= allocNow()
 		return mkT(c.st.alloc.S, SInt, types.Typ[types.Int])
@@ -510,7 +555,7 @@ func (c *EvalCtx) expandPredArgs(pd *PredDef, args []Term) Term {
 		v := args[i]
 		if p.Type != nil {
 			if t := c.u.eng.resolveTypeOpt(n.pkg, p.Type); t != nil {
-				if v.T == nil || isUntypedNil(v.T) {
+				if (v.T == nil || isUntypedNil(v.T)) && c.u.sortOf(t) == v.Sort {
 					v.T = t
 				}
 			}
@@ -789,7 +834,25 @@ func (c *EvalCtx) loadGlobal(g *globalInfo) Term {
 		return mkT(ref.S, SInt, refOf(elem))
 	}
 	comp, cs := c.u.cellComp(elem)
-	return c.u.loadLoc(c.st, Loc{Kind: 1, Comp: comp, CSort: cs, Ref: ref, T: elem})
+	v := c.u.loadLoc(c.st, Loc{Kind: 1, Comp: comp, CSort: cs, Ref: ref, T: elem})
+	if isErrorSentinel(g.g) && !c.mentionsBound(v) {
+		c.side = append(c.side, not(eq(v, intLit(0))))
+	}
+	return v
+}
+
+// isErrorSentinel: exported package-level error values such as fs.ErrNotExist, filepath.SkipDir,
+// cdi.ErrStopScan are created once by errors.New and never nil (assumed for variables named Err*/Skip*).
+func isErrorSentinel(g *ssa.Global) bool {
+	pt, ok := g.Type().(*types.Pointer)
+	if !ok {
+		return false
+	}
+	if it, ok := pt.Elem().Underlying().(*types.Interface); !ok || it.NumMethods() != 1 {
+		return false
+	}
+	n := g.Name()
+	return strings.HasPrefix(n, "Err") || strings.HasPrefix(n, "Skip")
 }
 
 func exprString(e ast.Expr) string {
